@@ -143,9 +143,9 @@ CHECKS['C10'] = dict(
     jobs=lambda tier, seed: [Job('h_vector', 'plain', args=['--cases', '64000' if tier == 'thorough' else '320'])],
     rule='evaluation = one operation compared with an array-of-fixed-size-elements model (result, returned bytes, errno ERANGE/ENOENT/EINVAL), followed by a comparison of the whole '
          'element buffer, size(), element size, num<=max and data!=NULL iff max>0. Exhaustive sweep: every (n<=10, index in [-n-2,n+2], element size 1/3/8/17/64, policy exact/linear/double, '
-         'initial capacity 0/1/n/n+3, op addat/getat/setat/popat/removeat) cell; random histories with resize to 0 / at or below n / above n interleaved with middle insertion and removal. '
+         'initial capacity 0/1/n/n+3, op addat/getat/setat/popat/removeat) cell; random histories with resize to 0 / at or below n / above n / to a capacity that can not be allocated / to a capacity whose byte count overflows size_t (both must be refused without effect) interleaved with middle insertion and removal. '
          'distinct = sweep cells + distinct (element size, policy, length, capacity, content prefix) states.',
-    require=['sweep_cells', 'refused_calls_verified_effect_free', 'automatic_growths', 'resize_to_zero', 'resize_at_or_below_n', 'resize_above_n',
+    require=['sweep_cells', 'refused_calls_verified_effect_free', 'automatic_growths', 'resize_to_zero', 'resize_at_or_below_n', 'resize_above_n', 'resize_unallocatable', 'resize_wrapping_byte_count',
              'walks_audited', 'flattenings_audited', 'reversals'],
     assumptions=['array model with the documented index convention (negative i -> n+i for insertion and access)'])
 
@@ -191,7 +191,7 @@ CHECKS['C12'] = dict(
     rule='evaluation = one operation of a per-container random history in which every key/value passed to a put-like call lives in a fresh exactly-sized heap block that is '
          'overwritten with 0xA5 and freed right after the call, and every copying accessor (%d accessors, each required to be exercised) is called with the copy flag: the returned bytes and length are '
          'compared with the model, the pointer must be the start of its own library allocation and differ from the internal pointer, and the copy is kept in a pool that is re-verified after every later '
-         'mutation and after the container is released, then freed (double free -> ASan / ledger). One in five non-removing copying reads runs with its 1st or 2nd allocation failing (single / all later): the answer may be NULL (no copy) but a non-NULL answer is held to the same independence rules. ASan+UBSan build. distinct = distinct (accessor, value bytes) copies retained.' % len(C12_ACCESSORS),
+         'mutation and after the container is released, then freed (double free -> ASan / ledger). One in five non-removing copying reads runs with its 1st or 2nd allocation failing (single / all later): the answer may be NULL (no copy) but a non-NULL answer is held to the same independence rules. String values also go through putstrf/addstrf, with lengths 1023/1024/1025/2048/4096 (the growth steps of the formatting buffer) among them. ASan+UBSan build. distinct = distinct (accessor, value bytes) copies retained.' % len(C12_ACCESSORS),
     require=['copies:' + a for a in C12_ACCESSORS] + ['retained_copies_reverified', 'caller_buffers_scribbled_and_freed', 'containers_released', 'copying_reads_refused_under_allocation_failure'],
     assumptions=['gcc 12 ASan detects use of freed caller buffers and double frees; the ledger knows every live library allocation',
                  'values: arbitrary bytes incl. embedded/trailing NUL, C strings, all-zero elements'])
@@ -276,7 +276,7 @@ CHECKS['C15'] = dict(
     jobs=c15_jobs, evidence=c15_evidence,
     rule='enumeration: for every allocating operation x every state of a corpus x failure injected at the k-th allocation made inside the call (k = 1..K measured by a dry run; single failure and all-subsequent-fail): '
          'the call must either complete correctly or report failure; after a reported failure the full content/counter comparison with the model (not updated) must hold; in every case the structural walker, a battery of normal operations, '
-         'the allocation ledger at free() and ASan/UBSan must be clean, the process must not crash, and for containers built thread-safe (every other configuration) a second thread must be able to take the container lock right after the call. distinct = distinct (state, operation, key/variant, k, mode) tuples.',
+         'the allocation ledger at free() and ASan/UBSan must be clean, the process must not crash, and for containers built thread-safe (every other configuration) a second thread must be able to take the container lock right after the call; list tables additionally: save()/load() on real (memfd) files - a save reported as success must contain every entry - and the option flags (unique, case, sorted, inserttop, lookupforward) must be what they were. distinct = distinct (state, operation, key/variant, k, mode) tuples.',
     exhaustive=True,
     require=['fault_positions_injected', 'oom_reported_failure', 'lock_probes_from_a_second_thread'],
     assumptions=['allocation failures are injected through the malloc/calloc/realloc/strdup link-time interposers (NULL + errno=ENOMEM)',
@@ -383,7 +383,7 @@ CHECKS['C20'] = dict(
     rule='documents are generated from the two grammars as abstract structures (refs/gen_conf.py); the text is rendered from the structure and the expected result is computed from the structure by reference semantics written from the documentation. '
          'INI: entries, comments, blank lines, sections incl. [] and blanks, separator inside values, ${key} (plain and section-qualified, latest definition), nested ${a${b}} resolved innermost-first, references that do not resolve (kept as written), ${} and ${%}, ${%ENV} set/unset, redefinitions, CRLF, parse_str and parse_file with @INCLUDE side files; '
          'oracle = the ordered (name, value) chain. Apache style: random option tables (take 0-7/TAKEALL, per-argument and default types, section ids, scopes ALL/ROOT/user, NULL callbacks + default handler), nesting depth <= 6, bare/single/double quoting with escapes, '
-         'tab/space layout, comments, all boolean spellings in random case, int/float forms, CASEINSENSITIVE / IGNOREUNKNOWN; every third document carries one fault (wrong count, wrong type at any position incl. beyond the fifth, wrong scope, unknown directive, unclosed or mismatched section); '
+         'tab/space layout incl. blanks before the closing bracket of a tag, comments, all boolean spellings in random case, int/float forms, CASEINSENSITIVE / IGNOREUNKNOWN; every third document carries one fault (wrong count, wrong type at any position incl. beyond the fifth, wrong scope, unknown directive, unclosed or mismatched section); '
          'oracle = callback stream (otype, section, sections, level, argv after unquoting and bool normalisation, parent chain; close callbacks carry the opening data), return count, rejection with path:line. evaluation = one document; distinct = distinct expected results.',
     require=['ini_documents_parse_file', 'ini_documents_parse_str', 'ini_entries_compared', 'callbacks_compared', 'apache_documents_accepted_by_reference',
              'apache_documents_rejected_by_reference', 'apache_fault:count', 'apache_fault:type', 'apache_fault:scope', 'apache_fault:unclosed', 'apache_fault:mismatch', 'apache_fault:unknown'],
